@@ -127,6 +127,23 @@ func c08Impl(in []int64) []int64 {
 			_ = cryptz.AESGCMEncrypt(gd, ss, key, make([]byte, 12), nil)
 			_ = cryptz.AESGCMDecrypt(make([]byte, 16), gd, key, make([]byte, 12), nil)
 			copy(key, orig)
+			if (a+b+c+d+int64(len(x3)))%2 == 1 {
+				// ... and, for every second case, right before the observed call, with the SAME key bytes (another slice)
+				// but other parameters: nonces of other lengths, another IV, another message.  A helper is a function of
+				// its arguments; anything kept from an earlier call under this key must not matter.
+				same := append([]byte{}, orig...)
+				for _, nl := range []int{12, 16, 1, len(x3) + 1} {
+					gd2 := make([]byte, cryptz.AESGCMEncryptLen(ss))
+					func() {
+						defer func() { _ = recover() }()
+						_ = cryptz.AESGCMEncrypt(gd2, ss, same, make([]byte, nl), nil)
+						_ = cryptz.AESGCMDecrypt(make([]byte, 16), gd2, same, make([]byte, nl), nil)
+					}()
+				}
+				iv2 := []byte("0123456789abcdef")
+				_ = cryptz.AESCBCEncrypt(sd, ss, same, iv2)
+				_, _ = cryptz.AESCBCDecrypt(make([]byte, 32), sd, same, iv2)
+			}
 		}
 		switch kind {
 		case 1:
